@@ -7,7 +7,8 @@ from trie.utils.binaries import decode_from_bin, decode_to_bin_keypath, encode_f
 from trie.utils.nibbles import (NIBBLES_LOOKUPS, REVERSE_NIBBLES_LOOKUP, add_nibbles_terminator, bytes_to_nibbles, decode_nibbles, encode_nibbles,
                                 is_nibbles_terminated, nibbles_to_bytes, remove_nibbles_terminator)
 from trie.utils.nodes import (compute_extension_key, compute_leaf_key, consume_common_prefix, encode_branch_node, encode_kv_node, encode_leaf_node,
-                              extract_key, get_common_prefix_length, get_node_type, key_starts_with, parse_node)
+                              extract_key, get_common_prefix_length, get_node_type, is_blank_node, is_branch_node, is_extension_node, is_leaf_node,
+                              key_starts_with, parse_node)
 
 
 # ---------------------------------------------------------------------------------------- C16
@@ -176,6 +177,37 @@ def h_hex_other(v):
     return get_node_type(b"") == NODE_TYPE_BLANK and get_node_type([b""] * 16 + [v]) == NODE_TYPE_BRANCH
 
 
+def _kinds(node):
+    """the classification given by the four is_*_node helpers, as a tuple of booleans (blank, leaf, extension, branch)"""
+    return (bool(is_blank_node(node)), bool(is_leaf_node(node)), bool(is_extension_node(node)), bool(is_branch_node(node)))
+
+
+def h_hex_helpers(nibs, v):
+    """every node falls into exactly one class, and the is_*_node helpers agree with get_node_type"""
+    leaf = [compute_leaf_key(nibs), v]
+    ext = [compute_extension_key(nibs), v]
+    branch = [b""] * 16 + [v]
+    return all([_kinds(leaf) == (False, True, False, False), _kinds(ext) == (False, False, True, False),
+                _kinds(branch) == (False, False, False, True), _kinds(b"") == (True, False, False, False)])
+
+
+def h_branch_node_lens(left, right):
+    """children that are not 32 bytes each: the encoder refuses, or whatever it produces parses back to the same parts"""
+    try:
+        node = encode_branch_node(left, right)
+    except ValidationError:
+        return True
+    try:
+        t, a, b = parse_node(node)
+    except InvalidNode:
+        return False
+    return t == BRANCH_TYPE and a == left and b == right
+
+
+def b_branch_node_lens(src, l, r):
+    return [src.atom("l", l) if l else b"", src.atom("r", r) if r else b""]
+
+
 def b_hex_other(src):
     return [src.atom("v", 5)]
 
@@ -319,6 +351,33 @@ def b_proof_sync(src, ks, dshape, preshapes, vshapes, kinds):
     pre = tuple((src.bv(f"p{i}", ks), _val(src, f"pv{i}", s)) for i, s in enumerate(preshapes))
     ups = tuple((src.bv(f"k{i}", ks), _val(src, f"v{i}", s)) for i, s in enumerate(vshapes))
     return [ks, default, pre, src.bv("t", ks), ups, tuple(kinds)]
+
+
+def h_update_alone(tracked, val, branch, k, v, upd):
+    """SparseMerkleProof.update on its own (no tree, arbitrary branch / update hashes): the sibling at the first differing bit
+    (MSB first) is replaced by the update's hash at that level, nothing else changes; an update of the tracked key replaces the value"""
+    depth = len(branch)
+    p = SparseMerkleProof(tracked, val, branch)
+    p.update(k, v, upd)
+    diff = to_int(tracked) ^ to_int(k)
+    conds = []
+    if diff == 0:
+        conds.append(p.value == v)
+        conds.append(tuple(p.branch) == tuple(branch))
+        return all(conds)
+    conds.append(p.value == val)
+    newb = p.branch
+    for i in range(depth):
+        first_here = (diff >> (depth - 1 - i)) == 1            # bit i (MSB first) is the first differing one
+        conds.append(newb[i] == (upd[i] if first_here else branch[i]))
+    return all(conds)
+
+
+def b_update_alone(src, ks):
+    depth = 8 * ks
+    branch = tuple(src.atom(f"b{i}", 32) for i in range(depth))
+    upd = tuple(src.atom(f"u{i}", 32) for i in range(depth))
+    return [src.bv("t", ks), src.atom("val", 2), branch, src.bv("k", ks), src.atom("v", 2), upd]
 
 
 def h_proof_trunc(ks, default, tracked, k, v, m):
@@ -528,11 +587,12 @@ def h_branch(keys, vals, q):
         ok_wrong = False
     conds.append(not ok_wrong)
     if len(branch) >= 2 and answer is not None:
-        try:
-            ok_trunc = if_branch_valid(branch[:-1], root, q, answer)
-        except (AssertionError, KeyError, InvalidNode):
-            ok_trunc = False
-        conds.append(not ok_trunc)
+        for claim in (answer, None):        # the truncated branch neither proves the value nor "proves" absence of a stored key
+            try:
+                ok_trunc = if_branch_valid(branch[:-1], root, q, claim)
+            except (AssertionError, KeyError, InvalidNode):
+                ok_trunc = False
+            conds.append(not ok_trunc)
     return all(conds)
 
 
@@ -631,9 +691,9 @@ def h_nodes(keys, vals):
     return _same_multiset(list(get_trie_nodes(db, t.root_hash)), _reachable_nodes(db, t.root_hash))
 
 
-def b_nodes(src, klens):
+def b_nodes(src, klens, vlen=3):
     keys = tuple(_key(src, f"k{i}", kl) for i, kl in enumerate(klens))
-    vals = tuple(src.atom(f"v{i}", 3) for i in range(len(klens)))
+    vals = tuple(src.atom(f"v{i}", vlen) for i in range(len(klens)))       # vlen=32: a value may coincide with the hash of a node in the db
     return [keys, vals]
 
 
